@@ -1,4 +1,4 @@
-CONSTANTS MaxRow = 1048576 MaxCol = 16384 Wide = FALSE MaxOpts = 1 MaxSst = 1 MaxCells = 1 UseBlock = FALSE MaxAttrs = 0
+CONSTANTS MaxRow = 1048576 MaxCol = 16384 Wide = FALSE MaxOpts = 1 MaxSst = 0 MaxCells = 1 UseBlock = FALSE MaxAttrs = 0
   Variants = "all" EmitReplay = TRUE
 SPECIFICATION MCSpec
 INVARIANTS Emit
